@@ -881,7 +881,7 @@ func (c *Ctx) checkStatementSeparation(r *Report) {
 
 func init() {
 	register("C02", &propDef{
-		explain: "Structural conditions of print-then-parse round trip, each decided on the printers' code: every child-carrying field of every node type is printed; operator nodes (derived from the parser's infix/postfix registries) consult and raise the precedence state; tokens reaching needParen all have a precedence; every escape strconv.Quote can emit is decoded by the lexer to the bytes it denotes (simulated per escape letter on readString's SSA); a separator is written between consecutive statements in both modes and the 'previous statement' is the previous sibling. The known gaps of the pinned tree (call and lambda printers ignore precedence, compact mode omits needed separators) are reported as known findings. Tree equality for all inputs is not decided. Also: a value-less return ends its block (parseReturnStatement shifts no token on that path and the next token is a block closer or cannot start a statement), since its printed form absorbs a following statement.",
+		explain: "Structural conditions of print-then-parse round trip, each decided on the printers' code: every child-carrying field of every node type is printed; operator nodes (derived from the parser's infix/postfix registries) consult and raise the precedence state; tokens reaching needParen all have a precedence; every escape strconv.Quote can emit is decoded by the lexer to the bytes it denotes (simulated per escape letter on readString's SSA); a separator is written between consecutive statements in both modes and the 'previous statement' is the previous sibling. The known gaps of the pinned tree (call and lambda printers ignore precedence, compact mode omits needed separators) are reported as known findings. Tree equality for all inputs is not decided. Also: a value-less return ends its block (parseReturnStatement shifts no token on that path and the next token is a block closer or cannot start a statement), since its printed form absorbs a following statement. Also: the enclosing precedence is scoped (a printer that changes ExpressionPrecedence restores the value it found on every return path).",
 		assume:  []string{"strconv.Quote's escape alphabet is Go's documented one", "superfluous parentheses and spaces are harmless; only missing ones are reported"},
 		run:     runC02,
 	})
